@@ -22,6 +22,8 @@ mod c06 {
 
     // ---- the node of the model and the verdict tables (ghost state read by the stand-ins)
     static mut NEP: usize = 0;
+    /// clusters per endpoint in the node of this harness (<= C)
+    static mut NCL: usize = C;
     static mut EP_IDS: [u16; E] = [0; E];
     static mut CL_IDS: [[u32; C]; E] = [[0; C]; E];
     static mut LEAF_IDS: [[[u32; L]; C]; E] = [[[0; L]; C]; E];
@@ -43,7 +45,7 @@ mod c06 {
         while i < E {
             if i < NEP && EP_IDS[i] == e {
                 let mut j = 0;
-                while j < C {
+                while j < NCL {
                     if CL_IDS[i][j] == c {
                         let mut k = 0;
                         while k < L {
@@ -197,9 +199,9 @@ mod c06 {
     }
 
     /// One call of `next_for_path` from an arbitrary cursor.
-    /// `SHAPE` splits the cursor space into four harnesses: 0 = fresh cursor (no anchor), 1 / 2 = anchored at the
+    /// `CC` = clusters per endpoint (1 or 2). `SHAPE` splits the cursor space into four harnesses: 0 = fresh cursor (no anchor), 1 / 2 = anchored at the
     /// first / second endpoint of the node, 3 = anchored at an endpoint that is no longer in the node.
-    fn step<const O: u8, const SHAPE: u8>() {
+    fn step<const O: u8, const SHAPE: u8, const CC: usize>() {
         let matter = MATTER;
         let accessor = Accessor::new(kani::any(), kani::any(), AccessorSubjects::new(kani::any()), Some(AuthMode::Case), &matter);
         let timed: bool = kani::any();
@@ -241,7 +243,7 @@ mod c06 {
         ];
         let dt0 = [DeviceType { dtype: 0x100, drev: 1 }];
         let dt1 = [DeviceType { dtype: 0x100, drev: 1 }];
-        let endpoints = [Endpoint::new(ep_ids[0], &dt0, &cl0), Endpoint::new(ep_ids[1], &dt1, &cl1)];
+        let endpoints = [Endpoint::new(ep_ids[0], &dt0, &cl0[..CC]), Endpoint::new(ep_ids[1], &dt1, &cl1[..CC])];
         let node = Node::new(&endpoints[..nep]);
 
         let ep_ok: [bool; E] = kani::any();
@@ -249,6 +251,7 @@ mod c06 {
         let gate_t: [[[u8; L]; C]; E] = kani::any();
         unsafe {
             NEP = nep;
+            NCL = CC;
             EP_IDS = ep_ids;
             CL_IDS = cl_ids;
             LEAF_IDS = leaf_ids;
@@ -272,7 +275,7 @@ mod c06 {
         let cur_ep: Option<u16> = if kani::any() { Some(kani::any()) } else { None };
         let cur_cl: u16 = kani::any();
         let cur_leaf: u16 = kani::any();
-        kani::assume(cur_cl as usize <= C && cur_leaf as usize <= L);
+        kani::assume(cur_cl as usize <= CC && cur_leaf as usize <= L);
         match SHAPE {
             0 => kani::assume(cur_ep.is_none()),
             1 => kani::assume(nep >= 1 && cur_ep == Some(ep_ids[0])),
@@ -306,7 +309,7 @@ mod c06 {
         if i0 < nep && (j0, k0) != (0, 0) {
             kani::assume(path.endpoint.is_none() || path.endpoint == Some(ep_ids[i0]));
             if k0 != 0 {
-                kani::assume(j0 < C && (path.cluster.is_none() || path.cluster == Some(cl_ids[i0][j0])));
+                kani::assume(j0 < CC && (path.cluster.is_none() || path.cluster == Some(cl_ids[i0][j0])));
             }
         }
         kani::assume(wildcard || (cur_ep.is_none() && cur_cl == 0 && cur_leaf == 0));
@@ -333,7 +336,7 @@ mod c06 {
         let mut i = E;
         while i > 0 {
             i -= 1;
-            let mut j = C;
+            let mut j = CC;
             while j > 0 {
                 j -= 1;
                 let mut k = L;
@@ -410,7 +413,7 @@ mod c06 {
                     let ei = if nep > 0 && ep_ids[0] == pe { Some(0) } else if nep > 1 && ep_ids[1] == pe { Some(1) } else { None };
                     let prescribed = match ei {
                         Some(i) if ep_ok[i] => {
-                            let cj = if cl_ids[i][0] == pc { Some(0) } else if cl_ids[i][1] == pc { Some(1) } else { None };
+                            let cj = if cl_ids[i][0] == pc { Some(0) } else if CC > 1 && cl_ids[i][1] == pc { Some(1) } else { None };
                             match cj {
                                 None => IMStatusCode::UnsupportedCluster,
                                 Some(j) => match exists_match {
@@ -437,7 +440,7 @@ mod c06 {
         // the gate is only ever asked about leaves that match the path, sit on a reachable endpoint
         // and passed the filter
         let (qi, qj, qk): (usize, usize, usize) = (kani::any(), kani::any(), kani::any());
-        kani::assume(qi < E && qj < C && qk < L);
+        kani::assume(qi < E && qj < CC && qk < L);
         kani::assert(
             !asked[qi][qj][qk] || (qi < nep && ep_ok[qi] && keep_t[qi][qj][qk] && path_matches(&path, ep_ids[qi], cl_ids[qi][qj], leaf_ids[qi][qj][qk])),
             "C06.expand.gate_asked_only_about_eligible_leaves"
@@ -566,135 +569,291 @@ mod c06 {
     }
 
     // TIER: thorough
-    // KIND: bounded (node of <= 2 endpoints x 2 clusters x 2 attributes, fixed ids; every path; one step from every cursor of shape "fresh")
+    // KIND: bounded (node of <= 2 endpoints x 1 cluster(s) x 2 attributes, fixed ids; every path; one step from every cursor of shape "fresh")
+    #[cfg(verif_unclosed)] // CBMC time-out (900 s) even with one cluster per endpoint
+    #[kani::proof]
+    #[kani::unwind(5)]
+    #[kani::stub(crate::dm::types::cluster::Cluster::check_attr_access, check_attr_access_by_contract)]
+    #[kani::stub(crate::dm::types::cluster::Cluster::check_cmd_access, check_cmd_access_by_contract)]
+    #[kani::stub(crate::acl::Accessor::is_endpoint_accessible, endpoint_accessible_by_contract)]
+    fn c06_expand_step1_read_fresh() {
+        step::<0, 0, 1>();
+    }
+
+    // TIER: thorough
+    // KIND: bounded (node of <= 2 endpoints x 1 cluster(s) x 2 attributes, fixed ids; every path; one step from every cursor of shape "anchor first")
+    #[cfg(verif_unclosed)] // CBMC time-out (900 s) even with one cluster per endpoint
+    #[kani::proof]
+    #[kani::unwind(5)]
+    #[kani::stub(crate::dm::types::cluster::Cluster::check_attr_access, check_attr_access_by_contract)]
+    #[kani::stub(crate::dm::types::cluster::Cluster::check_cmd_access, check_cmd_access_by_contract)]
+    #[kani::stub(crate::acl::Accessor::is_endpoint_accessible, endpoint_accessible_by_contract)]
+    fn c06_expand_step1_read_anchor_first() {
+        step::<0, 1, 1>();
+    }
+
+    // TIER: thorough
+    // KIND: bounded (node of <= 2 endpoints x 1 cluster(s) x 2 attributes, fixed ids; every path; one step from every cursor of shape "anchor second")
+    #[cfg(verif_unclosed)] // CBMC time-out (900 s) even with one cluster per endpoint
+    #[kani::proof]
+    #[kani::unwind(5)]
+    #[kani::stub(crate::dm::types::cluster::Cluster::check_attr_access, check_attr_access_by_contract)]
+    #[kani::stub(crate::dm::types::cluster::Cluster::check_cmd_access, check_cmd_access_by_contract)]
+    #[kani::stub(crate::acl::Accessor::is_endpoint_accessible, endpoint_accessible_by_contract)]
+    fn c06_expand_step1_read_anchor_second() {
+        step::<0, 2, 1>();
+    }
+
+    // TIER: thorough
+    // KIND: bounded (node of <= 2 endpoints x 1 cluster(s) x 2 attributes, fixed ids; every path; one step from every cursor of shape "anchor gone")
+    #[cfg(verif_unclosed)] // CBMC time-out (900 s) even with one cluster per endpoint
+    #[kani::proof]
+    #[kani::unwind(5)]
+    #[kani::stub(crate::dm::types::cluster::Cluster::check_attr_access, check_attr_access_by_contract)]
+    #[kani::stub(crate::dm::types::cluster::Cluster::check_cmd_access, check_cmd_access_by_contract)]
+    #[kani::stub(crate::acl::Accessor::is_endpoint_accessible, endpoint_accessible_by_contract)]
+    fn c06_expand_step1_read_anchor_gone() {
+        step::<0, 3, 1>();
+    }
+
+    // TIER: thorough
+    // KIND: bounded (node of <= 2 endpoints x 1 cluster(s) x 2 attributes, fixed ids; every path; one step from every cursor of shape "fresh")
+    #[cfg(verif_unclosed)] // CBMC time-out (900 s) even with one cluster per endpoint
+    #[kani::proof]
+    #[kani::unwind(5)]
+    #[kani::stub(crate::dm::types::cluster::Cluster::check_attr_access, check_attr_access_by_contract)]
+    #[kani::stub(crate::dm::types::cluster::Cluster::check_cmd_access, check_cmd_access_by_contract)]
+    #[kani::stub(crate::acl::Accessor::is_endpoint_accessible, endpoint_accessible_by_contract)]
+    fn c06_expand_step1_write_fresh() {
+        step::<1, 0, 1>();
+    }
+
+    // TIER: thorough
+    // KIND: bounded (node of <= 2 endpoints x 1 cluster(s) x 2 attributes, fixed ids; every path; one step from every cursor of shape "anchor first")
+    #[cfg(verif_unclosed)] // CBMC time-out (900 s) even with one cluster per endpoint
+    #[kani::proof]
+    #[kani::unwind(5)]
+    #[kani::stub(crate::dm::types::cluster::Cluster::check_attr_access, check_attr_access_by_contract)]
+    #[kani::stub(crate::dm::types::cluster::Cluster::check_cmd_access, check_cmd_access_by_contract)]
+    #[kani::stub(crate::acl::Accessor::is_endpoint_accessible, endpoint_accessible_by_contract)]
+    fn c06_expand_step1_write_anchor_first() {
+        step::<1, 1, 1>();
+    }
+
+    // TIER: thorough
+    // KIND: bounded (node of <= 2 endpoints x 1 cluster(s) x 2 attributes, fixed ids; every path; one step from every cursor of shape "anchor second")
+    #[cfg(verif_unclosed)] // CBMC time-out (900 s) even with one cluster per endpoint
+    #[kani::proof]
+    #[kani::unwind(5)]
+    #[kani::stub(crate::dm::types::cluster::Cluster::check_attr_access, check_attr_access_by_contract)]
+    #[kani::stub(crate::dm::types::cluster::Cluster::check_cmd_access, check_cmd_access_by_contract)]
+    #[kani::stub(crate::acl::Accessor::is_endpoint_accessible, endpoint_accessible_by_contract)]
+    fn c06_expand_step1_write_anchor_second() {
+        step::<1, 2, 1>();
+    }
+
+    // TIER: thorough
+    // KIND: bounded (node of <= 2 endpoints x 1 cluster(s) x 2 attributes, fixed ids; every path; one step from every cursor of shape "anchor gone")
+    #[cfg(verif_unclosed)] // CBMC time-out (900 s) even with one cluster per endpoint
+    #[kani::proof]
+    #[kani::unwind(5)]
+    #[kani::stub(crate::dm::types::cluster::Cluster::check_attr_access, check_attr_access_by_contract)]
+    #[kani::stub(crate::dm::types::cluster::Cluster::check_cmd_access, check_cmd_access_by_contract)]
+    #[kani::stub(crate::acl::Accessor::is_endpoint_accessible, endpoint_accessible_by_contract)]
+    fn c06_expand_step1_write_anchor_gone() {
+        step::<1, 3, 1>();
+    }
+
+    // TIER: thorough
+    // KIND: bounded (node of <= 2 endpoints x 1 cluster(s) x 2 commands, fixed ids; every path; one step from every cursor of shape "fresh")
+    #[cfg(verif_unclosed)] // CBMC time-out (900 s) even with one cluster per endpoint
+    #[kani::proof]
+    #[kani::unwind(5)]
+    #[kani::stub(crate::dm::types::cluster::Cluster::check_attr_access, check_attr_access_by_contract)]
+    #[kani::stub(crate::dm::types::cluster::Cluster::check_cmd_access, check_cmd_access_by_contract)]
+    #[kani::stub(crate::acl::Accessor::is_endpoint_accessible, endpoint_accessible_by_contract)]
+    fn c06_expand_step1_invoke_fresh() {
+        step::<2, 0, 1>();
+    }
+
+    // TIER: thorough
+    // KIND: bounded (node of <= 2 endpoints x 1 cluster(s) x 2 commands, fixed ids; every path; one step from every cursor of shape "anchor first")
+    #[cfg(verif_unclosed)] // CBMC time-out (900 s) even with one cluster per endpoint
+    #[kani::proof]
+    #[kani::unwind(5)]
+    #[kani::stub(crate::dm::types::cluster::Cluster::check_attr_access, check_attr_access_by_contract)]
+    #[kani::stub(crate::dm::types::cluster::Cluster::check_cmd_access, check_cmd_access_by_contract)]
+    #[kani::stub(crate::acl::Accessor::is_endpoint_accessible, endpoint_accessible_by_contract)]
+    fn c06_expand_step1_invoke_anchor_first() {
+        step::<2, 1, 1>();
+    }
+
+    // TIER: thorough
+    // KIND: bounded (node of <= 2 endpoints x 1 cluster(s) x 2 commands, fixed ids; every path; one step from every cursor of shape "anchor second")
+    #[cfg(verif_unclosed)] // CBMC time-out (900 s) even with one cluster per endpoint
+    #[kani::proof]
+    #[kani::unwind(5)]
+    #[kani::stub(crate::dm::types::cluster::Cluster::check_attr_access, check_attr_access_by_contract)]
+    #[kani::stub(crate::dm::types::cluster::Cluster::check_cmd_access, check_cmd_access_by_contract)]
+    #[kani::stub(crate::acl::Accessor::is_endpoint_accessible, endpoint_accessible_by_contract)]
+    fn c06_expand_step1_invoke_anchor_second() {
+        step::<2, 2, 1>();
+    }
+
+    // TIER: thorough
+    // KIND: bounded (node of <= 2 endpoints x 1 cluster(s) x 2 commands, fixed ids; every path; one step from every cursor of shape "anchor gone")
+    #[cfg(verif_unclosed)] // CBMC time-out (900 s) even with one cluster per endpoint
+    #[kani::proof]
+    #[kani::unwind(5)]
+    #[kani::stub(crate::dm::types::cluster::Cluster::check_attr_access, check_attr_access_by_contract)]
+    #[kani::stub(crate::dm::types::cluster::Cluster::check_cmd_access, check_cmd_access_by_contract)]
+    #[kani::stub(crate::acl::Accessor::is_endpoint_accessible, endpoint_accessible_by_contract)]
+    fn c06_expand_step1_invoke_anchor_gone() {
+        step::<2, 3, 1>();
+    }
+
+    // TIER: thorough
+    // KIND: bounded (node of <= 2 endpoints x 2 cluster(s) x 2 attributes, fixed ids; every path; one step from every cursor of shape "fresh")
+    #[cfg(verif_unclosed)] // CBMC time-out (1500 s)
     #[kani::proof]
     #[kani::unwind(5)]
     #[kani::stub(crate::dm::types::cluster::Cluster::check_attr_access, check_attr_access_by_contract)]
     #[kani::stub(crate::dm::types::cluster::Cluster::check_cmd_access, check_cmd_access_by_contract)]
     #[kani::stub(crate::acl::Accessor::is_endpoint_accessible, endpoint_accessible_by_contract)]
     fn c06_expand_step_read_fresh() {
-        step::<0, 0>();
+        step::<0, 0, 2>();
     }
 
     // TIER: thorough
-    // KIND: bounded (node of <= 2 endpoints x 2 clusters x 2 attributes, fixed ids; every path; one step from every cursor of shape "anchor first")
+    // KIND: bounded (node of <= 2 endpoints x 2 cluster(s) x 2 attributes, fixed ids; every path; one step from every cursor of shape "anchor first")
+    #[cfg(verif_unclosed)] // CBMC time-out (1500 s)
     #[kani::proof]
     #[kani::unwind(5)]
     #[kani::stub(crate::dm::types::cluster::Cluster::check_attr_access, check_attr_access_by_contract)]
     #[kani::stub(crate::dm::types::cluster::Cluster::check_cmd_access, check_cmd_access_by_contract)]
     #[kani::stub(crate::acl::Accessor::is_endpoint_accessible, endpoint_accessible_by_contract)]
     fn c06_expand_step_read_anchor_first() {
-        step::<0, 1>();
+        step::<0, 1, 2>();
     }
 
     // TIER: thorough
-    // KIND: bounded (node of <= 2 endpoints x 2 clusters x 2 attributes, fixed ids; every path; one step from every cursor of shape "anchor second")
+    // KIND: bounded (node of <= 2 endpoints x 2 cluster(s) x 2 attributes, fixed ids; every path; one step from every cursor of shape "anchor second")
+    #[cfg(verif_unclosed)] // CBMC time-out (1500 s)
     #[kani::proof]
     #[kani::unwind(5)]
     #[kani::stub(crate::dm::types::cluster::Cluster::check_attr_access, check_attr_access_by_contract)]
     #[kani::stub(crate::dm::types::cluster::Cluster::check_cmd_access, check_cmd_access_by_contract)]
     #[kani::stub(crate::acl::Accessor::is_endpoint_accessible, endpoint_accessible_by_contract)]
     fn c06_expand_step_read_anchor_second() {
-        step::<0, 2>();
+        step::<0, 2, 2>();
     }
 
     // TIER: thorough
-    // KIND: bounded (node of <= 2 endpoints x 2 clusters x 2 attributes, fixed ids; every path; one step from every cursor of shape "anchor gone")
+    // KIND: bounded (node of <= 2 endpoints x 2 cluster(s) x 2 attributes, fixed ids; every path; one step from every cursor of shape "anchor gone")
+    #[cfg(verif_unclosed)] // CBMC time-out (1500 s)
     #[kani::proof]
     #[kani::unwind(5)]
     #[kani::stub(crate::dm::types::cluster::Cluster::check_attr_access, check_attr_access_by_contract)]
     #[kani::stub(crate::dm::types::cluster::Cluster::check_cmd_access, check_cmd_access_by_contract)]
     #[kani::stub(crate::acl::Accessor::is_endpoint_accessible, endpoint_accessible_by_contract)]
     fn c06_expand_step_read_anchor_gone() {
-        step::<0, 3>();
+        step::<0, 3, 2>();
     }
 
     // TIER: thorough
-    // KIND: bounded (node of <= 2 endpoints x 2 clusters x 2 attributes, fixed ids; every path; one step from every cursor of shape "fresh")
+    // KIND: bounded (node of <= 2 endpoints x 2 cluster(s) x 2 attributes, fixed ids; every path; one step from every cursor of shape "fresh")
+    #[cfg(verif_unclosed)] // CBMC time-out (1500 s)
     #[kani::proof]
     #[kani::unwind(5)]
     #[kani::stub(crate::dm::types::cluster::Cluster::check_attr_access, check_attr_access_by_contract)]
     #[kani::stub(crate::dm::types::cluster::Cluster::check_cmd_access, check_cmd_access_by_contract)]
     #[kani::stub(crate::acl::Accessor::is_endpoint_accessible, endpoint_accessible_by_contract)]
     fn c06_expand_step_write_fresh() {
-        step::<1, 0>();
+        step::<1, 0, 2>();
     }
 
     // TIER: thorough
-    // KIND: bounded (node of <= 2 endpoints x 2 clusters x 2 attributes, fixed ids; every path; one step from every cursor of shape "anchor first")
+    // KIND: bounded (node of <= 2 endpoints x 2 cluster(s) x 2 attributes, fixed ids; every path; one step from every cursor of shape "anchor first")
+    #[cfg(verif_unclosed)] // CBMC time-out (1500 s)
     #[kani::proof]
     #[kani::unwind(5)]
     #[kani::stub(crate::dm::types::cluster::Cluster::check_attr_access, check_attr_access_by_contract)]
     #[kani::stub(crate::dm::types::cluster::Cluster::check_cmd_access, check_cmd_access_by_contract)]
     #[kani::stub(crate::acl::Accessor::is_endpoint_accessible, endpoint_accessible_by_contract)]
     fn c06_expand_step_write_anchor_first() {
-        step::<1, 1>();
+        step::<1, 1, 2>();
     }
 
     // TIER: thorough
-    // KIND: bounded (node of <= 2 endpoints x 2 clusters x 2 attributes, fixed ids; every path; one step from every cursor of shape "anchor second")
+    // KIND: bounded (node of <= 2 endpoints x 2 cluster(s) x 2 attributes, fixed ids; every path; one step from every cursor of shape "anchor second")
+    #[cfg(verif_unclosed)] // CBMC time-out (1500 s)
     #[kani::proof]
     #[kani::unwind(5)]
     #[kani::stub(crate::dm::types::cluster::Cluster::check_attr_access, check_attr_access_by_contract)]
     #[kani::stub(crate::dm::types::cluster::Cluster::check_cmd_access, check_cmd_access_by_contract)]
     #[kani::stub(crate::acl::Accessor::is_endpoint_accessible, endpoint_accessible_by_contract)]
     fn c06_expand_step_write_anchor_second() {
-        step::<1, 2>();
+        step::<1, 2, 2>();
     }
 
     // TIER: thorough
-    // KIND: bounded (node of <= 2 endpoints x 2 clusters x 2 attributes, fixed ids; every path; one step from every cursor of shape "anchor gone")
+    // KIND: bounded (node of <= 2 endpoints x 2 cluster(s) x 2 attributes, fixed ids; every path; one step from every cursor of shape "anchor gone")
+    #[cfg(verif_unclosed)] // CBMC time-out (1500 s)
     #[kani::proof]
     #[kani::unwind(5)]
     #[kani::stub(crate::dm::types::cluster::Cluster::check_attr_access, check_attr_access_by_contract)]
     #[kani::stub(crate::dm::types::cluster::Cluster::check_cmd_access, check_cmd_access_by_contract)]
     #[kani::stub(crate::acl::Accessor::is_endpoint_accessible, endpoint_accessible_by_contract)]
     fn c06_expand_step_write_anchor_gone() {
-        step::<1, 3>();
+        step::<1, 3, 2>();
     }
 
     // TIER: thorough
-    // KIND: bounded (node of <= 2 endpoints x 2 clusters x 2 commands, fixed ids; every path; one step from every cursor of shape "fresh")
+    // KIND: bounded (node of <= 2 endpoints x 2 cluster(s) x 2 commands, fixed ids; every path; one step from every cursor of shape "fresh")
+    #[cfg(verif_unclosed)] // CBMC time-out (1500 s)
     #[kani::proof]
     #[kani::unwind(5)]
     #[kani::stub(crate::dm::types::cluster::Cluster::check_attr_access, check_attr_access_by_contract)]
     #[kani::stub(crate::dm::types::cluster::Cluster::check_cmd_access, check_cmd_access_by_contract)]
     #[kani::stub(crate::acl::Accessor::is_endpoint_accessible, endpoint_accessible_by_contract)]
     fn c06_expand_step_invoke_fresh() {
-        step::<2, 0>();
+        step::<2, 0, 2>();
     }
 
     // TIER: thorough
-    // KIND: bounded (node of <= 2 endpoints x 2 clusters x 2 commands, fixed ids; every path; one step from every cursor of shape "anchor first")
+    // KIND: bounded (node of <= 2 endpoints x 2 cluster(s) x 2 commands, fixed ids; every path; one step from every cursor of shape "anchor first")
+    #[cfg(verif_unclosed)] // CBMC time-out (1500 s)
     #[kani::proof]
     #[kani::unwind(5)]
     #[kani::stub(crate::dm::types::cluster::Cluster::check_attr_access, check_attr_access_by_contract)]
     #[kani::stub(crate::dm::types::cluster::Cluster::check_cmd_access, check_cmd_access_by_contract)]
     #[kani::stub(crate::acl::Accessor::is_endpoint_accessible, endpoint_accessible_by_contract)]
     fn c06_expand_step_invoke_anchor_first() {
-        step::<2, 1>();
+        step::<2, 1, 2>();
     }
 
     // TIER: thorough
-    // KIND: bounded (node of <= 2 endpoints x 2 clusters x 2 commands, fixed ids; every path; one step from every cursor of shape "anchor second")
+    // KIND: bounded (node of <= 2 endpoints x 2 cluster(s) x 2 commands, fixed ids; every path; one step from every cursor of shape "anchor second")
+    #[cfg(verif_unclosed)] // CBMC time-out (1500 s)
     #[kani::proof]
     #[kani::unwind(5)]
     #[kani::stub(crate::dm::types::cluster::Cluster::check_attr_access, check_attr_access_by_contract)]
     #[kani::stub(crate::dm::types::cluster::Cluster::check_cmd_access, check_cmd_access_by_contract)]
     #[kani::stub(crate::acl::Accessor::is_endpoint_accessible, endpoint_accessible_by_contract)]
     fn c06_expand_step_invoke_anchor_second() {
-        step::<2, 2>();
+        step::<2, 2, 2>();
     }
 
     // TIER: thorough
-    // KIND: bounded (node of <= 2 endpoints x 2 clusters x 2 commands, fixed ids; every path; one step from every cursor of shape "anchor gone")
+    // KIND: bounded (node of <= 2 endpoints x 2 cluster(s) x 2 commands, fixed ids; every path; one step from every cursor of shape "anchor gone")
+    #[cfg(verif_unclosed)] // CBMC time-out (1500 s)
     #[kani::proof]
     #[kani::unwind(5)]
     #[kani::stub(crate::dm::types::cluster::Cluster::check_attr_access, check_attr_access_by_contract)]
     #[kani::stub(crate::dm::types::cluster::Cluster::check_cmd_access, check_cmd_access_by_contract)]
     #[kani::stub(crate::acl::Accessor::is_endpoint_accessible, endpoint_accessible_by_contract)]
     fn c06_expand_step_invoke_anchor_gone() {
-        step::<2, 3>();
+        step::<2, 3, 2>();
     }
 
     // ------------------------------------------------------------------------------------------
